@@ -51,6 +51,8 @@ where
     T: FileReader,
 {
     lexer_stack: Vec<Peekable<Lexer>>,
+    /// File identifiers of the lexers on `lexer_stack`, in the same order.
+    file_stack: Vec<Uuid>,
     pub reader: T,
 }
 
@@ -97,6 +99,7 @@ impl<T: FileReader> RVParser<T> {
     pub fn new(reader: T) -> RVParser<T> {
         RVParser {
             lexer_stack: Vec::new(),
+            file_stack: Vec::new(),
             reader,
         }
     }
@@ -136,6 +139,7 @@ impl<T: FileReader> RVParser<T> {
             }
         };
         let first_uuid = lexer.source_id;
+        self.file_stack.push(first_uuid);
         self.lexer_stack.push(lexer.peekable());
 
         // Add program entry node
@@ -154,7 +158,16 @@ impl<T: FileReader> RVParser<T> {
                     if !ignore_imports {
                         if let Some(path) = x.get_include_path() {
                             match self.reader.import_file(path.get(), Some(path.file())) {
+                                Ok((new_uuid, _)) if self.file_stack.contains(&new_uuid) => {
+                                    // The reader handed back a file that is
+                                    // still being read further down the stack:
+                                    // following it would never end.
+                                    parse_errors.push(ParseError::CyclicDependency(Box::new(
+                                        path.token().clone(),
+                                    )));
+                                }
                                 Ok((new_uuid, new_text)) => {
+                                    self.file_stack.push(new_uuid);
                                     self.lexer_stack
                                         .push(Lexer::new(new_text, new_uuid).peekable());
                                 }
@@ -179,6 +192,7 @@ impl<T: FileReader> RVParser<T> {
                     }
                     LexError::UnexpectedEOF => {
                         self.lexer_stack.pop();
+                        self.file_stack.pop();
                     }
                     LexError::NeedTwoNodes(n1, n2) => {
                         nodes.push(*n1);
